@@ -187,17 +187,21 @@ func c02Levels(p *Prog, r *Report) {
 		if fi == nil {
 			continue
 		}
-		info := fi.Pkg.TypesInfo
-		f := p.FlatOf(fi)
-		sites := f.CallSites(it.callee)
-		ok := len(sites) > 0
-		for _, s := range sites {
-			last := s.Call.Args[len(s.Call.Args)-1]
-			// a filter variable, or a call of the helper that builds the filter (the table above is then read from that call)
-			if tv, has := info.Types[last]; !has || tv.Type == nil || !strings.HasSuffix(tv.Type.String(), "model.FileFilter") {
-				ok = false
+		// (the call of the core may sit in a helper of the package the use case hands over to: session.publish)
+		n := 0
+		ok := true
+		for _, g := range localClosure(p, it.fn) {
+			info := g.Pkg.TypesInfo
+			for _, s := range p.FlatOf(g).CallSites(it.callee) {
+				n++
+				last := s.Call.Args[len(s.Call.Args)-1]
+				// a filter variable, or a call of the helper that builds the filter (the table above is then read from that call)
+				if tv, has := info.Types[last]; !has || tv.Type == nil || !strings.HasSuffix(tv.Type.String(), "model.FileFilter") {
+					ok = false
+				}
 			}
 		}
+		ok = ok && n > 0
 		r.Check(ok, "C02.a", it.fn+"#filter-passed", p.pos(fi.Decl), "the filter built by the switch is passed to the core", "the filter built from the isolation level is not the one passed to the core")
 	}
 }
